@@ -20,6 +20,8 @@ import (
 
 	"verifmc/core"
 	"verifmc/node"
+
+	"github.com/LemoFoundationLtd/lemochain-core/network"
 )
 
 func subSearches() []string {
@@ -111,6 +113,12 @@ func main() {
 	core.ParseFlags()
 	node.Quiet()
 	setCTier(core.Thorough())
+	if !network.VerifC20LoopVarShared() {
+		// part C is about a closure over a loop variable: a build that gives rewritten files other loop
+		// semantics than the real build (module go 1.14) would hide it
+		fmt.Fprintln(os.Stderr, "infrastructure error: the instrumented build does not keep the module's go 1.14 loop-variable semantics")
+		os.Exit(2)
+	}
 	safe := core.SafeRun(prop, run)
 	if core.Opt.Replay != "" {
 		var rp struct {
@@ -164,7 +172,7 @@ func main() {
 		dump = hitsDir + "/bfs.dump"
 		os.Setenv("VERIF_BFS_DUMP", dump)
 	}
-	core.BFS(r, core.BFSConfig{Prop: prop, Run: safe, MaxDepth: 64, Subprocess: true, RecycleEvery: 400, PerRunLimit: 120e9, DiedFingerprint: died})
+	core.BFS(r, core.BFSConfig{Prop: prop, Run: safe, MaxDepth: 64, Subprocess: true, RecycleEvery: 400, PerRunLimit: 60e9, DiedFingerprint: died})
 	perScenario(r, dump)
 	hits := collectHits(hitsDir)
 	r.Extra["hits"] = hits
